@@ -1084,7 +1084,7 @@ func runC16(r *Run, rng *Rng, replay string) {
 		r.Stat("history:witness")
 	}
 	// 3. generated histories
-	nh := 700
+	nh := 1500
 	if r.Tier == "thorough" {
 		nh = 12000
 	}
